@@ -18,6 +18,8 @@ QuickLM == {Big(-1, 15, 0), Big(-1, 7, 0), Zero, Big(1, 7, 0), Big(1, 8, 0), Big
 MoreLM  == {Big(-1, 63, 0), Big(-1, 31, 0), Big(1, 31, 0), Big(1, 32, 0), Big(1, 63, 0), Big(1, 64, 0)}
 LM == IF Tier = "quick" THEN QuickLM ELSE QuickLM \cup MoreLM
 BoundVals == {Plus(l, o) : l \in LM, o \in {-1, 0, 1}}
+\* the inclusive value of a side that is stated twice stays around the 8/16-bit limits (its partner sits there) in both tiers
+QuickBoundVals == {Plus(l, o) : l \in QuickLM, o \in {-1, 0, 1}}
 DocVals == {Plus(l, o) : l \in LM \ {Big(1, 63, 0), Big(1, 64, 0)}, o \in {-2, -1, 0, 1}}
            \cup (IF Tier = "quick" THEN {} ELSE {Big(1, 63, -1), Big(1, 63, -2), Big(-1, 63, 0), Big(-1, 63, 1)})
 InInt64(x) == NumLE(MinInt(64), x) /\ NumLE(x, MaxInt(64))
@@ -110,9 +112,11 @@ Init == /\ lowForm \in Forms \cup TwiceForms /\ upForm \in Forms \cup TwiceForms
 Twice == lowForm \in TwiceForms \/ upForm \in TwiceForms
 Pick == /\ vs = <<>>
         /\ vs' \in (IF lowForm = "none" THEN {Zero} ELSE IF fmt # "none" THEN FmtLows
-                     ELSE IF Twice /\ lowForm \notin TwiceForms THEN SmallVals ELSE BoundVals)
+                     ELSE IF Twice /\ lowForm \notin TwiceForms THEN SmallVals
+                     ELSE IF lowForm \in TwiceForms THEN QuickBoundVals ELSE BoundVals)
                  \X (IF upForm = "none" THEN {Zero} ELSE IF fmt = "shared" THEN SharedUps ELSE IF fmt # "none" THEN FmtUps
-                     ELSE IF Twice /\ upForm \notin TwiceForms THEN SmallVals ELSE BoundVals)
+                     ELSE IF Twice /\ upForm \notin TwiceForms THEN SmallVals
+                     ELSE IF upForm \in TwiceForms THEN QuickBoundVals ELSE BoundVals)
         /\ (fmt = "shared" => vs' \in FmtLows \X SharedUps)
         /\ UNCHANGED <<lowForm, upForm, flag, fmt>>
 Next == Pick
